@@ -1,11 +1,12 @@
 """C02 Encoder output is the specification's binary encoding — structural obligations."""
 import ast
+import re
 
 from sa.loader import AnalysisError, norm, walk_local
 from sa.shapes import consumption, has_unknown, flat
 from sa.cfg import cfg_of
 from sa.spec import avro_wire as spec
-from .common import analysis, W_NAMES, tokens, names_in
+from .common import true_facts, analysis, W_NAMES, tokens, names_in
 from .c01 import check_shapes
 
 PROP = "C02"
@@ -96,6 +97,25 @@ def run(ctx):
     # ---- R5 default substitution keyed on absence -------------------------------------
     ctx.rule("C02.R5", "write_record: a field's default is substituted only when the key is absent from the datum", floor=1)
     record_defaults(ctx, a, W.funcs("record")[0], "C02.R5")
+
+    # ---- R7 the only conversion of a field's value ---------------------------------------------------------------
+    ctx.rule("C02.R7", "write_record converts a field's value (float(..)) only when the field's type is exactly float or double; nothing else rebinds the value handed to write_data", floor=1)
+    wr = W.funcs("record")[0]
+    wcfg = cfg_of(wr)
+    wcalls = [c for c in ast.walk(wr.node) if isinstance(c, ast.Call) and isinstance(c.func, ast.Name) and c.func.id == "write_data" and len(c.args) >= 3]
+    if len(wcalls) != 1 or not isinstance(wcalls[0].args[1], ast.Name):
+        ctx.unrecognised("C02.R7", "write_record", wr.where(), "expected one write_data(encoder, <value variable>, <field type>, ..) call")
+    else:
+        vv = wcalls[0].args[1].id
+        ftype = norm(wcalls[0].args[2])
+        conv = [n for n in walk_local(wr.node) if isinstance(n, ast.Assign) and any(isinstance(t, ast.Name) and t.id == vv for t in n.targets) and any(isinstance(x, ast.Name) and x.id == vv for x in ast.walk(n.value))]
+        if not conv:
+            ctx.holds("C02.R7", "write_record: the value is never converted", wr.where())
+        for n in conv:
+            facts = true_facts(wcfg, wcfg.node_of(n))
+            pinned = any(re.fullmatch(re.escape(ftype) + r" in \('(float|double)', '(float|double)'\)|" + re.escape(ftype) + r" == '(float|double)'", x) for x in facts)
+            ok = pinned and norm(n.value) == f"float({vv})"
+            ctx.check("C02.R7", f"write_record: `{norm(n)[:50]}` only for a field of type float / double", ok, wr.where(n), f"write_record: {norm(n)[:60]} under {sorted(facts)[:4]}", "a value that conforms to another branch or type (a string such as '12' or 'nan' in a union with a double branch) is rewritten before it is encoded: the bytes are not the encoding of the datum under the branch it conforms to")
 
     # ---- R6 the name a (name, value) hint is compared with ------------------------------------------------------
     ctx.rule("C02.R6", "tuple notation: the hint is compared, by equality, with the branch's full name (named types) or its type name, nothing else", floor=1)
